@@ -245,7 +245,7 @@ def _gen_case(rng, tier, origins):
     tree, exp = small_tree(rng, version, multi)
     origin = rng.choice(origins)
     hist = []
-    for _ in range(rng.choice([0, 1, 1, 2, 3, 4, 6])):
+    for _ in range(rng.choice([0, 1, 1, 2, 3, 4, 6] if tier == "quick" else [1, 2, 3, 4, 6, 10, 20])):
         route = rng.choice(["lib", "cli"])
         hist.append({"route": route, "req": gen_request(rng, route), "omit_unnamed": rng.random() < 0.3,
                      "flags_first": rng.random() < 0.3})
